@@ -22,7 +22,7 @@ HRec(e, h) == [level |-> e.level, profile |-> e.ft.profile, version |-> h.ver, b
 
 V(c, a) == [c |-> c, alarm |-> a]
 
-HeaderClause(e, cols, h) ==
+HeaderClause(e, opts, h) ==
   IF ~h.ok /\ h.exc = "ValueNotAllowedInLevel" /\ h.key = "major_version" /\ WellFormed(h.e)
           /\ DeviationLevelVersion(HRec(e, h))          THEN V("RejectedLevelVersion", TRUE)
   ELSE IF ~h.ok                                         THEN V("Rejected", TRUE)
@@ -32,25 +32,27 @@ HeaderClause(e, cols, h) ==
   ELSE IF DecodeHeader(h.b, h.e) # h.dec                THEN V("SpecDecode", FALSE)
   ELSE IF h.ver # HeaderVersion(e.ft.profile, h.e)      THEN V("SpecVersion", FALSE)
   ELSE IF ~LevelAccepts(HRec(e, h))                     THEN V("SpecLevel", FALSE)
-  ELSE IF e.full /\ ~(\E t \in 1..Len(HeadersForBase(cols, e.req, h.b)) :
-                        HeadersForBase(cols, e.req, h.b)[t] = h.e)
+  ELSE IF e.full /\ ~(\E t \in 1..Len(opts[h.b + 1]) : opts[h.b + 1][t] = h.e)
                                                         THEN V("SpecOption", FALSE)
   ELSE V("ok", FALSE)
 
-(* per configuration: the number of headers per base format is what the design predicts *)
-CountClause(e, cols) ==
+(* per configuration (when all headers were recorded): the number of headers per base format is what *)
+(* the design predicts                                                                                *)
+CountClause(e, opts) ==
   IF ~e.full THEN V("ok", FALSE)
-  ELSE IF \E b \in Bases : Cardinality({j \in 1..Len(e.hs) : e.hs[j].b = b}) # Len(HeadersForBase(cols, e.req, b))
+  ELSE IF \E b \in Bases : Cardinality({j \in 1..Len(e.hs) : e.hs[j].b = b}) # Len(opts[b + 1])
        THEN V("SpecCount", FALSE)
   ELSE V("ok", FALSE)
 
 LineBad(e, line) ==
   LET cols == MatchingColumns(CV(e.level, e.pcm, e.req, e.ft))
-      cl   == [j \in 1..Len(e.hs) |-> HeaderClause(e, cols, e.hs[j])]
+      \* the design's option lists per base format, computed once per line (only for fully recorded lines)
+      opts == [b1 \in 1..NumBases |-> IF e.full THEN HeadersForBase(cols, e.req, b1 - 1) ELSE <<>>]
+      cl   == [j \in 1..Len(e.hs) |-> HeaderClause(e, opts, e.hs[j])]
       idx  == AscSeq({j \in 1..Len(e.hs) : cl[j].c # "ok"})
       hb   == [k \in 1..Len(idx) |-> [tid |-> e.tid, line |-> line, h |-> idx[k],
                                       clause |-> cl[idx[k]].c, alarm |-> cl[idx[k]].alarm]]
-      cc   == CountClause(e, cols)
+      cc   == CountClause(e, opts)
   IN hb \o (IF cc.c = "ok" THEN <<>> ELSE <<[tid |-> e.tid, line |-> line, h |-> 0, clause |-> cc.c, alarm |-> cc.alarm]>>)
 
 TraceInit == l = 1 /\ bad = <<>>
